@@ -141,6 +141,9 @@ def run(tier, seed, replay=None):
         if (rc2 == 0) != (want_exit == "0"):
             res.failing.append(("exit-status-untruthful", "mpq extract exits %d but the library's answers give %s error(s) (skip-errors=%s)" % (rc2, int(nerr, 16), ex["skip"]), case))
             continue
+        if ex.get("stale"):
+            # files that were already there and that the run did not touch are not output of the run
+            got = {k: v for k, v in got.items() if k in want_files or k not in files or v != bytes(b ^ 0xff for b in files[k])}
         if got != want_files:
             miss = sorted(set(want_files) - set(got))[:3]
             extra = sorted(set(got) - set(want_files))[:3]
